@@ -266,6 +266,15 @@ def walkOkCs (h : Heap) (ob : Observer) (x : W) : List Graph → Bool
      | .ok ys => ys.all (fun y => walkOk h true c y)) && walkOkCs h ob x cs
 end
 
+/-! No node of the graph notifies (every link written with ':'). -/
+mutual
+def Graph.quiet : Graph → Bool
+  | .node ob cs => !ob.notify && Graph.quietL cs
+def Graph.quietL : List Graph → Bool
+  | [] => true
+  | c :: cs => Graph.quiet c && Graph.quietL cs
+end
+
 /-! The registration walk raises before any *sibling* subtree has completed: at
 the node itself (`iter_observables` / `iter_objects` raise), or inside the walk of
 the FIRST child graph on the FIRST object, recursively.  (Failures after a
